@@ -111,9 +111,15 @@ VFd *World::get(int fd) {
   return it == fds.end() ? nullptr : &it->second;
 }
 VFd &World::alloc(FdKind k) {
-  int fd = next_fd++;
+  int fd = -1;
+  if (fd_reuse) {
+    // lowest free number, as a POSIX kernel does; the closed object moves to the graveyard
+    for (int n = 300; n < next_fd; n++) { auto it = fds.find(n); if (it != fds.end() && !it->second.open) { graveyard.push_back(it->second); fds.erase(it); fd = n; bump("fd_number_reused"); break; } }
+  }
+  if (fd < 0) fd = next_fd++;
   VFd &f = fds[fd];
-  f.fd = fd; f.kind = k; f.open = true; f.ever_open = true; f.opened_at = now_us;
+  f = VFd();
+  f.fd = fd; f.gen = ++gen_ctr; f.kind = k; f.open = true; f.ever_open = true; f.opened_at = now_us;
   return f;
 }
 void World::log(int call, int fd, long res, int err, long a, long b) {
@@ -155,6 +161,7 @@ bool World::take_fault(int cls, int fd, Fault &out) {
 int World::add_flight(int kind, int64_t at, int fd, const std::string &data, const Addr &src, int resp_id) {
   Flight f;
   f.id = (int)flights.size(); f.kind = kind; f.at = at; f.fd = fd; f.data = data; f.src = src; f.resp_id = resp_id;
+  { VFd *v = get(fd); f.gen = v ? v->gen : 0; }
   flights.push_back(f);
   return f.id;
 }
@@ -181,7 +188,7 @@ void World::deliver_flight(Flight &f) {
   VFd *s = get(f.fd);
   mix(((uint64_t)f.kind << 40) ^ (uint64_t)f.id ^ ((uint64_t)now_us << 8));
   if (f.kind == FL_INOTIFY) { if (s && s->open) s->inbuf += f.data; return; }
-  if (!s || !s->open) { bump("flight_to_closed_socket"); return; }
+  if (!s || !s->open || (f.gen && s->gen != f.gen)) { bump("flight_to_closed_socket"); return; }   // a packet is addressed to a socket (port), not to a descriptor number
   switch (f.kind) {
     case FL_DGRAM: {
       Dgram d; d.data = f.data; d.src = f.src; d.resp_id = f.resp_id;
